@@ -94,6 +94,20 @@ func buildModule(base string, subsets []int) pipe.Tree {
 	}
 	add := func(dir, pkg string, subset int, imports string) {
 		t[dir+"/"+pkg+".go"] = pkgSrc(pkg, imports)
+		// test files (in-package and external test package) with types of their own, a file excluded by a
+		// build constraint and a testdata directory: never part of the package gengo processes
+		t[dir+"/"+pkg+"_test.go"] = "package " + pkg + "\n\ntype InTest struct{ A int }\n"
+		t[dir+"/"+pkg+"_ext_test.go"] = "package " + pkg + "_test\n\ntype InExtTest struct{ A int }\n"
+		t[dir+"/ignored.go"] = "//go:build ignore\n\npackage " + pkg + "\n\ntype Ignored struct{ A int }\n"
+		t[dir+"/testdata/"+base+".g1.go"] = "package testdata\n\nvar LooksLikeAnOutput = 1\n"
+		// files whose //line directive (ahead of the package clause, as code generators emit) names another file:
+		// a user file that claims to come from an OUTPUT of the never-selected package, and a stale output that
+		// claims to come from a template
+		if dir != lay.Other {
+			up := strings.Repeat("../", strings.Count(dir, "/")+1)
+			t[dir+"/linedir.go"] = "//line " + up + lay.Other + "/" + base + ".g1.go:1\npackage " + pkg + "\n\nvar LineDirective = 1\n"
+		}
+		t[dir+"/"+base+".legacy.go"] = "//line legacy.tmpl:1\npackage " + pkg + "\n\nvar Legacy = 1\n"
 		for i, f := range preFiles(base, pkg) {
 			if subset&(1<<i) != 0 {
 				t[dir+"/"+f.name] = f.content
@@ -170,6 +184,9 @@ func checkCase(c *core.Ctx, cs Case) {
 		processed := map[string]bool{} // package dirs for which a generator was invoked
 		for _, e := range o.Log {
 			if e.Kind == "type" {
+				if e.Type == "InTest" || e.Type == "InExtTest" || e.Type == "Ignored" || strings.HasSuffix(e.Pkg, "_test") || strings.HasSuffix(e.Pkg, "/testdata") {
+					c.Fail("", cs, "run %d: a generator was invoked for %s.%s, which is declared in a test file / a file excluded by its build constraint / a testdata directory", ri+1, e.Pkg, e.Type)
+				}
 				processed[dirOfPkg(e.Pkg)] = true
 			}
 		}
@@ -226,6 +243,9 @@ func checkCase(c *core.Ctx, cs Case) {
 			// stale outputs of generators no longer run are removed
 			if _, is := after[d+"/"+cs.Base+".old.go"]; is {
 				c.Fail("", cs, "run %d: stale %s/%s.old.go was not removed", ri+1, d, cs.Base)
+			}
+			if _, is := after[d+"/"+cs.Base+".legacy.go"]; is {
+				c.Fail("", cs, "run %d: stale %s/%s.legacy.go (which carries a //line directive naming a template) was not removed", ri+1, d, cs.Base)
 			}
 		}
 		c.State(fmt.Sprintf("%s|%v|%v|%d|%d|%d", r.B1+"/"+r.B2, r.All, ri, len(created), len(changed), len(deleted)))
@@ -374,7 +394,7 @@ func replay(c *core.Ctx, raw json.RawMessage) {
 func init() {
 	core.Register(&core.Prop{
 		ID: "C07", Level: "model_checking", Run: run, Replay: replay,
-		Rule: "histories of 1 and 2 real runs over all 25 (g1,g2) behaviour pairs {render, nothing, ErrSkip, ErrIgnore, ErrIgnore+render} per run x All on/off per run x base names, each run processing one package per subset of 8 pre-existing file kinds plus an imported and a never-selected package, in 4 module layouts (two with the module path re-occurring inside package paths, one with a nested module below the root whose path extends the module path and which the imported package imports); every file of the module is compared before/after; non-trivial = every case (each contains look-alike and stale files); states = distinct (behaviour pair, All, run index, #created, #changed, #deleted)",
+		Rule: "histories of 1 and 2 real runs over all 25 (g1,g2) behaviour pairs {render, nothing, ErrSkip, ErrIgnore, ErrIgnore+render} per run x All on/off per run x base names, each run processing one package per subset of 8 pre-existing file kinds (every package also holds an in-package test file, an external-test-package file, a file excluded by a build constraint and a testdata directory with an output look-alike) plus an imported and a never-selected package, in 4 module layouts (two with the module path re-occurring inside package paths, one with a nested module below the root whose path extends the module path and which the imported package imports); every file of the module is compared before/after; non-trivial = every case (each contains look-alike and stale files); states = distinct (behaviour pair, All, run index, #created, #changed, #deleted)",
 		Assumptions: []string{
 			"a package counts as processed when a generator callback was invoked for it (cached packages of a second All run are not processed)",
 			"<base>.txt only has to stay inside the allowed set",
